@@ -319,6 +319,14 @@ namespace foonathan
                 return arena_.get_allocator();
             }
 
+#ifdef FOONATHAN_MEMORY_VERIF
+            // verification hook: read-only structural self check of the free list for node_size
+            const char* verif_walk(std::size_t node_size, std::size_t& reachable) const noexcept
+            {
+                return pools_.get(node_size).verif_walk(reachable);
+            }
+#endif
+
         private:
             allocator_info info() const noexcept
             {
